@@ -2,7 +2,7 @@
    Go harness ran against the real code and compares {Ok, Err, Panic} (and the values where both
    sides produce one) with what was observed. *)
 From Coq Require Import String.
-From Verif Require Import Base NoPanic.
+From Verif Require Import Base NoPanic NoPanicConfig.
 Open Scope Z_scope.
 
 (* transaction state as dumped by the harness: variable id -> what tx.Collection(v) returned *)
@@ -35,7 +35,11 @@ Inductive case :=
   (* WriteRequestBody/WriteResponseBody: st 0 returned (n bytes written), 1 error, 2 panic *)
   | CWb (partial : bool) (limit buffered blen : Z) (st : N) (n : Z)
   (* memoize call sites (index into np_sites_fixed) with texts, compiled into one WAF *)
-  | CMemo (calls : list (nat * bytes)) (panicked : bool).
+  | CMemo (calls : list (nat * bytes)) (panicked : bool)
+  (* a whole configuration of the modelled fragment: st 0 accepted (rules = id, phase, msg text), 1 rejected, 2 panic *)
+  | CConfig (text : bytes) (st : N) (rules : list (Z * Z * option bytes))
+  (* ... compiled and driven through the five phases: TX afterwards and (rule id, message) of the matched rules *)
+  | CRun (base : txtab) (text : bytes) (st : N) (init after : list (bytes * list bytes)) (log : list (Z * bytes)).
 
 Fixpoint list_bytes_eqb (a b : list bytes) : bool :=
   match a, b with
@@ -72,6 +76,21 @@ Fixpoint pairs_eqb (a : list np_raction) (b : list (bytes * bytes)) : bool :=
   match a, b with
   | [], [] => true
   | x :: a', (k, v) :: b' => bytes_eqb (ra_key x) k && bytes_eqb (ra_val x) v && pairs_eqb a' b'
+  | _, _ => false
+  end.
+
+Definition opt_bytes_eqb (a b : option bytes) : bool :=
+  match a, b with Some x, Some y => bytes_eqb x y | None, None => true | _, _ => false end.
+Fixpoint rules_eqb (a : list np_crule) (b : list (Z * Z * option bytes)) : bool :=
+  match a, b with
+  | [], [] => true
+  | r :: a', (i, p, m) :: b' => (cr_id r =? i) && (cr_phase r =? p) && opt_bytes_eqb (cr_msgtext r) m && rules_eqb a' b'
+  | _, _ => false
+  end.
+Fixpoint log_eqb (a b : list (Z * bytes)) : bool :=
+  match a, b with
+  | [], [] => true
+  | (i, m) :: a', (j, n) :: b' => (i =? j) && bytes_eqb m n && log_eqb a' b'
   | _, _ => false
   end.
 
@@ -137,6 +156,27 @@ Definition ok (c : case) : bool :=
     match np_write_body WbCompareFirst partial limit buffered blen with
     | Ok (Some m) => (st =? 0)%N && (n =? m)
     | Ok None => (st =? 0)%N && (n =? 0)
+    | Err => (st =? 1)%N
+    | Panic => (st =? 2)%N
+    end
+  | CConfig text st rules =>
+    match np_compile_config text with
+    | Ok (Some rs) => (st =? 0)%N && rules_eqb rs rules
+    | Ok None => false            (* the generator must stay inside the modelled fragment *)
+    | Err => (st =? 1)%N
+    | Panic => (st =? 2)%N
+    end
+  | CRun base text st init after log =>
+    match np_compile_config text with
+    | Ok (Some rs) =>
+      forallb np_rule_static rs &&
+      match np_run_config (tx_of base init) rs init with
+      | Ok (Some (kv, lg)) => (st =? 0)%N && kv_equiv kv after && log_eqb lg log
+      | Ok None => false
+      | Err => false
+      | Panic => (st =? 2)%N
+      end
+    | Ok None => false
     | Err => (st =? 1)%N
     | Panic => (st =? 2)%N
     end
